@@ -96,6 +96,24 @@ class Prop:
         for ch, o in zip(meta, outs):
             self.check(ctx, ch, o)
         ctx.count('long_line_cases', len(lines))
+        # a very long line (a proprietary sentence, a log record: more than a mebibyte) between two sentences, in
+        # packets of the usual sizes - the implementation against the property only (the recorded input is the packet
+        # size, not two megabytes of hex)
+        first = b'!AIVDM,1,1,,A,15M67FC000G?ufbE`FepT@3n00Sa,0*5C\r\n'
+        body = (b'$PXYZ,' + b'0123456789ABCDEF' * 70000)
+        body = body[:1048570] + b'!AIVDM,1,1,,B,15M67FC000G?ufbE`FepT@3n00Sa,0*5F' + body[1048570:1100000]
+        stream = first + body + b'\r\n' + first
+        for size in (4096, 1460, 65536):
+            ch = [stream[i:i + size] for i in range(0, len(stream), size)]
+            ctx.evaluations += 1
+            got = impl.sock_read(ch)
+            exp = '[' + ','.join(hx(l + b'\n') for l in stream.split(b'\n')[:-1]) + ']'      # (= spec_lines, fast)
+            ctx.count('megabyte_line_cases')
+            if got != exp:
+                import hashlib
+                ctx.fail('lines handed on differ from the LF-terminated lines of the stream (a line longer than a mebibyte)',
+                         {'megabyte_line': True, 'packet_size': size, 'stream_sha1': hashlib.sha1(stream).hexdigest()},
+                         '3 lines (%d bytes)' % len(exp), got[:200] + ' … (%d bytes)' % len(got), {'kind': 'lines-long'})
         # AIS streams through the whole socket front-end
         rng = ctx.rng('ais')
         base = nmea_cases.base_sentences(rng)
@@ -125,6 +143,8 @@ class Prop:
                          {'chunks': l.split()[2:]}, ref[term][:300], o[:300], {'kind': 'messages'})
 
     def replay(self, ctx, payload):
+        if payload['failure']['input'].get('megabyte_line'):
+            return None       # regenerated by the generic replay
         chunks = [bytes.fromhex(c) for c in payload['failure']['input']['chunks']]
         self.check(ctx, chunks, impl.step('sock ' + ' '.join(c.hex() for c in chunks)))
         return not ctx.failures
